@@ -341,4 +341,6 @@ MUTANTS = [
     dict(file=SE, func="DoubleExponentialCurrent.forward", old="self.neg_current * math.exp(-self.dt / self.tc_rise)", new="self.neg_current * math.exp(-self.dt / self.tc_decay)", contracts=["DoubleExponentialCurrent.forward"]),
     dict(file=SC, func="DeltaPlusCurrent.forward", old="self.spike = inputs[0].bool()", new="self.spike = inputs[0]", contracts=["DeltaPlusCurrent.forward"], expect="survives", name="control: SpikeMixin.spike setter converts to bool itself"),
     dict(file=SE, func="SingleExponentialCurrent.clear", old="self.current_.reset(0.0)", new="pass", contracts=["SingleExponentialCurrent.forward"]),
+    dict(file=SC, func="DeltaCurrent.__init__", old="                synapse.spike_charge / synapse.dt", new="                synapse.spike_charge / step_time", contracts=["DeltaCurrent.forward"], name="seed C04h: the pulse divides by the constructor's step time (stale after the dt setter)"),
+    dict(file=SM, func="SpikeCurrentMixin.__init__", old="            spike_interp,\n            spike_interp_kwargs,\n            spike_overbound,", new="            current_interp,\n            current_interp_kwargs,\n            spike_overbound,", contracts=["SingleExponentialCurrent.*_at[wiring]"], name="seed C06h: the spike record is interpolated with the current's interpolation"),
 ]
